@@ -84,10 +84,11 @@ class Int:
 
 class Float:
     """f64: python float or z3 FP term"""
-    __slots__ = ('t',)
+    __slots__ = ('t', 'src')
 
-    def __init__(self, t):
+    def __init__(self, t, src=None):
         self.t = t
+        self.src = src      # the integer value this float was converted from (symbolic int -> float casts)
 
     def is_conc(self):
         return isinstance(self.t, float)
